@@ -5,7 +5,7 @@
 cd /verif/seeded
 NAMES=${@:-$(ls)}
 for S in $NAMES; do
-  P=$(/venv/bin/python -c "import json;print(json.load(open('/verif/seeded/$S/meta.json'))['property'])")
+  P=$(/venv/bin/python -c "import json;m=json.load(open('/verif/seeded/$S/meta.json'));print(m.get('check', m['property']))")
   WT=/tmp/sr_$S
   git -C /repo worktree remove --force $WT 2>/dev/null
   git -C /repo worktree add -q --detach $WT HEAD
